@@ -421,6 +421,14 @@ fn single_recipes() -> Vec<Recipe> {
         v.push(Recipe { header: Some((true, n)), key: 1, layers: vec![] });
         v.push(Recipe { header: None, key: 1, layers: vec![Layer::Array(n)] });
     }
+    // just past 2^16 and 2^17: a count kept in a narrow integer would come out small again
+    for &n in &[65_539usize, 65_600, 131_075] {
+        v.push(Recipe { header: None, key: n, layers: vec![] });
+        v.push(Recipe { header: Some((false, n)), key: 1, layers: vec![] });
+        v.push(Recipe { header: Some((true, n)), key: 1, layers: vec![] });
+        v.push(Recipe { header: None, key: 1, layers: vec![Layer::Array(n)] });
+        v.push(Recipe { header: None, key: 1, layers: vec![Layer::Inline(n, 1)] });
+    }
     v
 }
 
